@@ -1,0 +1,93 @@
+"""
+Verification hooks (add-only instrumentation; inert unless TEAAL_VERIF=1).
+
+With the guard on, the translator records one event per translated flow node
+(the state of the shared tensor objects after the node) and every flow graph
+with the order chosen for it, and lets a harness substitute another linear
+extension of the flow graph for the computed topological order (schedule
+injection).  Events go to the list `events` and, when TEAAL_VERIF_TRACE names
+a file, to that file as NDJSON.  The hooks read state and never write it,
+except that an injected order replaces the computed one.
+"""
+
+import json
+import os
+import random
+from typing import Any, Callable, Dict, List, Optional
+
+events: List[Dict[str, Any]] = []
+flow_log: List[Dict[str, Any]] = []
+topo_injector: Optional[Callable[[Any, List[Any]], List[Any]]] = None
+_seq = [0]
+
+
+def enabled() -> bool:
+    return os.environ.get("TEAAL_VERIF") == "1"
+
+
+def emit(ev: Dict[str, Any]) -> None:
+    _seq[0] += 1
+    ev["seq"] = _seq[0]
+    events.append(ev)
+    path = os.environ.get("TEAAL_VERIF_TRACE")
+    if path:
+        with open(path, "a") as f:
+            f.write(json.dumps(ev) + "\n")
+
+
+def tensors(program: Any) -> Dict[str, Any]:
+    return {name: {"ranks": list(t.ranks),
+                   "init": list(t.init_ranks),
+                   "rank_ptr": t.rank_ptr,
+                   "iter_ptr": t.iter_ptr,
+                   "is_output": t.is_output,
+                   "is_flat": t.is_flat} for name,
+            t in program.tensors.items()}
+
+
+def node(n: Any) -> Dict[str, Any]:
+    d: Dict[str, Any] = {"kind": type(n).__name__}
+    for attr in ("tensor", "rank", "ranks", "type", "tensors"):
+        if hasattr(n, attr):
+            v = getattr(n, attr)
+            d[attr] = list(v) if isinstance(v, (list, tuple)) else v
+    return d
+
+
+def _is_linear_extension(graph: Any, order: List[Any]) -> bool:
+    pos = {n: i for i, n in enumerate(order)}
+    return len(pos) == len(order) == graph.number_of_nodes() and all(
+        n in pos for n in graph.nodes) and all(pos[u] < pos[v] for u, v in graph.edges)
+
+
+def random_linear_extension(graph: Any, rng: random.Random) -> List[Any]:
+    indeg = {n: graph.in_degree(n) for n in graph.nodes}
+    ready = sorted((n for n in graph.nodes if indeg[n] == 0), key=repr)
+    out = []
+    while ready:
+        n = ready.pop(rng.randrange(len(ready)))
+        out.append(n)
+        new = []
+        for s in graph.successors(n):
+            indeg[s] -= 1
+            if indeg[s] == 0:
+                new.append(s)
+        ready = sorted(ready + new, key=repr)
+    return out
+
+
+def sort_hook(graph: Any, computed: List[Any]) -> List[Any]:
+    """
+    Called at the end of FlowGraph.__sort: log the graph and possibly replace
+    the computed order by another linear extension
+    """
+    order = computed
+    if topo_injector is not None:
+        order = list(topo_injector(graph, computed))
+    elif os.environ.get("TEAAL_VERIF_TOPO_SEED"):
+        order = random_linear_extension(graph, random.Random(
+            int(os.environ["TEAAL_VERIF_TOPO_SEED"]) + len(flow_log)))
+    if not _is_linear_extension(graph, order):
+        raise ValueError("Injected order is not a linear extension")
+    flow_log.append({"graph": graph, "pre": list(order)})
+    return order
